@@ -244,6 +244,16 @@ J gen_hostile_cli(uint64_t seed, const J &ov)
 			default: f[3] = (uint8_t)((2 << 4) | r.range(1, 15)); f.insert(f.end(), pl.begin(), pl.begin() + (long)std::min<size_t>(pl.size(), (size_t)r.range(0, 8))); break;
 			}
 			op.set("hex", hexs(f)); op.set("unmatched", false);
+			if (r.chance(0.25)) {
+				// ... and complete, well-formed frames for THIS client (data and ping, user 0) that come from a host which is not the
+				// server and does not pretend to be: a raw-mode client knows who it logged in to
+				J o2 = J::obj(); o2.set("ref", "abs"); o2.set("t", op["t"]); o2.set("op", "dgram"); o2.set("from", "atk0"); o2.set("from_ip", "10.9.2.1"); o2.set("to", "c0"); o2.set("dport", "auto"); o2.set("sport", (int)(r.chance(0.5) ? 53 : r.range(1024, 65000)));
+				Bytes g = {0x10, 0xd1, 0x9e, (uint8_t)(((r.chance(0.8) ? 2 : 3) << 4) | 0)};
+				if ((g[3] >> 4) == 2) g.insert(g.end(), pl.begin(), pl.end());
+				o2.set("hex", hexs(g)); o2.set("unmatched", false);
+				ops.push(o2);
+				continue;
+			}
 		}
 		ops.push(op);
 	}
